@@ -38,6 +38,28 @@ def real_function(target):
     return obj, m
 
 
+def region_function(contract):
+    """The statements of a region target, taken from the CURRENT source, wrapped as
+    `def __region__(<live-ins>): <the statements, verbatim>; return locals()` and compiled in the namespace of the real
+    module (so `np`, helpers and constants resolve as they do in the repository)."""
+    from pyvc import extract as X
+    ex = X.extract(contract["target"])
+    stmts = X.find_region(ex.node, contract["region"])
+    params = [p for p in contract["params"] if not p.startswith("ghost_")]
+    fn = ast.FunctionDef(
+        name="__region__",
+        args=ast.arguments(posonlyargs=[], args=[ast.arg(arg=p) for p in params], kwonlyargs=[], kw_defaults=[], defaults=[]),
+        body=list(stmts) + [ast.Return(value=ast.Call(func=ast.Name(id="locals", ctx=ast.Load()), args=[], keywords=[]))],
+        decorator_list=[], type_params=[])
+    mod = ast.Module(body=[fn], type_ignores=[])
+    ast.fix_missing_locations(mod)
+    relpath = contract["target"].split("::")[0]
+    m = repo_import(relpath)
+    ns = dict(vars(m))
+    exec(compile(mod, f"<region of {contract['target']}>", "exec"), ns)
+    return ns["__region__"]
+
+
 _NUM = (int, float, np.integer, np.floating)
 
 
@@ -160,8 +182,9 @@ def snapshot(v):
 def check_call(contract, classes, args, fn=None, extra=None, label=""):
     """Run the real function on concrete `args` (dict param -> value) and evaluate the contract natively.
     Returns (status, failures): status in {'skipped' (requires false), 'ok', 'violated'}."""
+    is_region = "region" in contract
     if fn is None:
-        fn, _ = real_function(contract["target"])
+        fn = region_function(contract) if is_region else real_function(contract["target"])[0]
     defs = native_defs(contract)
     if extra:
         defs.update(extra)
@@ -203,6 +226,8 @@ def check_call(contract, classes, args, fn=None, extra=None, label=""):
         exc_name = type(exn).__name__
         exc_obj = exn
     env_after = dict(env)
+    if is_region and isinstance(result, dict):
+        env_after.update(result)          # the region's locals after its last statement
     env_after["result"] = result
     if exc_name is None:
         for exc, m in must.items():
